@@ -136,3 +136,56 @@ class UpdateReferenceInList_Replace(Contract):
                      options=dict(kinds=kinds(g), ref_fields=("line",)), symbols={"newref_is_complement_of_oldref": compl},
                      replay=lambda w: {"target": "bounded.replay_helpers:update_reference_in_list_cases"},
                      confirm=battery_confirm)]
+
+
+def _replaced_by_complement_case(ctx, old_cls, label):
+    g = ctx.gfapy
+    old, new = Obj(old_cls, "oldref"), Obj(g.line.edge.Link, "newref")
+    ends = {k: Obj(g.SegmentEnd, k) for k in ("old.from_end", "old.to_end", "new.from_end", "new.to_end")}
+    ovs = {k: Obj(None, k) for k in ("old.overlap", "new.overlap")}
+    compl = z3.Bool("old_is_complement_of_new")
+    ph = {"old.overlap": z3.Bool("old_overlap_unspecified"), "new.overlap": z3.Bool("new_overlap_unspecified")}
+    eq = {("old.from_end", "new.to_end"): z3.Bool("oldfrom_eq_newto"), ("old.to_end", "new.from_end"): z3.Bool("oldto_eq_newfrom"),
+          ("old.from_end", "new.from_end"): z3.Bool("oldfrom_eq_newfrom"), ("old.to_end", "new.to_end"): z3.Bool("oldto_eq_newto")}
+    heap = {old.oid: {"from_end": ends["old.from_end"], "to_end": ends["old.to_end"], "overlap": ovs["old.overlap"]},
+            new.oid: {"from_end": ends["new.from_end"], "to_end": ends["new.to_end"], "overlap": ovs["new.overlap"]},
+            **{o.oid: {} for o in list(ends.values()) + list(ovs.values())}}
+    name_of = {o.oid: k for k, o in list(ends.items()) + list(ovs.items())}
+    def m_eq(E, st, pos, kw):
+        a, b = pos
+        key = (name_of.get(a.oid), name_of.get(b.oid))
+        if key not in eq:
+            key = (key[1], key[0])
+        if key not in eq:
+            raise Unsupported("== between %r and %r" % (a, b))
+        yield ("val", eq[key], [])
+    def m_ph(E, st, pos, kw):
+        (x,) = pos
+        yield ("val", ph[name_of[x.oid]], [])
+    models = {g.SegmentEnd.__eq__: m_eq, g.is_placeholder: m_ph,
+              ctx.fn("gfapy/line/edge/link/equivalence.py::Equivalence.is_complement"): const_model(lambda s_, o_: compl)}
+    islink = old_cls is g.line.edge.Link
+    swapped = z3.And(eq[("old.from_end", "new.to_end")], eq[("old.to_end", "new.from_end")])
+    same = z3.And(eq[("old.from_end", "new.from_end")], eq[("old.to_end", "new.to_end")])
+    want = z3.And(z3.BoolVal(islink), z3.Or(compl, z3.And(z3.Or(ph["old.overlap"], ph["new.overlap"]), swapped, z3.Not(same))))
+    def post(k, v, st):
+        if k != "return":
+            return z3.BoolVal(False)
+        val = v if is_sym(v) else z3.BoolVal(bool(v))
+        return val == want
+    sym = dict(old_is_complement_of_new=compl, **{str(b): b for b in list(ph.values()) + list(eq.values())})
+    return Case(label, [old, new], post, heap=heap, models=models, symbols=sym,
+                replay=lambda w: {"target": "bounded.replay_helpers:path_link_direction_cases"}, confirm=battery_confirm)
+
+
+@register
+class IsReplacedByComplement(Contract):
+    fn = "gfapy/line/common/update_references.py::UpdateReferences.__is_replaced_by_complement"
+    props = ("C12", "C03")
+    doc = ("a placeholder link is replaced by its COMPLEMENT form iff is_complement says so, or - when at least one of the two overlaps is "
+           "unspecified, so that the overlaps cannot tell - the ends are exchanged (old.from = new.to and old.to = new.from) and not "
+           "identical (a link whose two forms coincide keeps its direction); a line that is not a link is never 'complemented'")
+
+    def cases(self, ctx):
+        g = ctx.gfapy
+        return [_replaced_by_complement_case(ctx, g.line.edge.Link, "link"), _replaced_by_complement_case(ctx, g.line.segment.GFA1, "not-a-link")]
